@@ -138,6 +138,83 @@ func (g *jsonGen) value(d int) string {
 	}
 }
 
+// bigDoc: documents whose size is in one dimension far beyond what value() produces: thousands of elements or keys,
+// strings of hundreds to tens of thousands of bytes, nesting of 30-60 levels
+func (g *jsonGen) bigDoc() string {
+	r := g.r
+	var sb strings.Builder
+	sb.WriteString(g.ws(true))
+	switch r.Intn(5) {
+	case 0:
+		n := []int{255, 256, 257, 300, 1000, 5000}[r.Intn(6)]
+		sb.WriteString("[")
+		for i := 0; i < n; i++ {
+			if i > 0 {
+				sb.WriteString(g.ws(false) + ",")
+			}
+			sb.WriteString(g.ws(true) + g.value(0))
+		}
+		sb.WriteString(g.ws(true) + "]")
+	case 1:
+		n := []int{255, 256, 257, 300, 1000, 2000}[r.Intn(6)]
+		sb.WriteString("{")
+		for i := 0; i < n; i++ {
+			if i > 0 {
+				sb.WriteString(g.ws(false) + ",")
+			}
+			key := fmt.Sprintf("\"k%d\"", r.Intn(n)) // repeated keys among many
+			sb.WriteString(g.ws(true) + key + g.ws(false) + ":" + g.ws(true) + g.value(0))
+		}
+		sb.WriteString(g.ws(true) + "}")
+	case 2:
+		d := 30 + r.Intn(31)
+		var closers []string
+		for i := 0; i < d; i++ {
+			if r.Intn(2) == 0 {
+				sb.WriteString("[" + g.ws(true))
+				if r.Intn(3) == 0 {
+					sb.WriteString(g.value(0) + g.ws(false) + "," + g.ws(true))
+				}
+				closers = append(closers, "]")
+			} else {
+				sb.WriteString("{" + g.ws(true) + g.str() + g.ws(false) + ":" + g.ws(true))
+				closers = append(closers, "}")
+			}
+		}
+		sb.WriteString(g.value(0))
+		for i := len(closers) - 1; i >= 0; i-- {
+			sb.WriteString(g.ws(true) + closers[i])
+		}
+	case 3:
+		n := []int{255, 256, 300, 4096, 20000}[r.Intn(5)]
+		sb.WriteString("[" + g.ws(true) + "\"")
+		for sb.Len() < n {
+			s := g.str()
+			sb.WriteString(s[1 : len(s)-1])
+		}
+		sb.WriteString("\"" + g.ws(true) + "]")
+	default:
+		rows, cols := 20+r.Intn(100), 5+r.Intn(50)
+		sb.WriteString("[")
+		for i := 0; i < rows; i++ {
+			if i > 0 {
+				sb.WriteString(",")
+			}
+			sb.WriteString(g.ws(true) + "[")
+			for k := 0; k < cols; k++ {
+				if k > 0 {
+					sb.WriteString("," + g.ws(false))
+				}
+				sb.WriteString(g.number())
+			}
+			sb.WriteString("]")
+		}
+		sb.WriteString(g.ws(true) + "]")
+	}
+	sb.WriteString(g.ws(true))
+	return sb.String()
+}
+
 func (g *jsonGen) doc(depth int) string {
 	return g.ws(true) + g.value(depth) + g.ws(true)
 }
@@ -230,11 +307,18 @@ func c16exec(j run.Job, a *run.Acc) {
 	p := combinator.Sentence(text.Trim(json.NewParser()))
 	for it := 0; it < j.N; it++ {
 		doc := g.doc(1 + r.Intn(j.Param("depth", 4)))
+		if j.Family == "valid" && r.Intn(60) == 0 {
+			doc = g.bigDoc()
+		}
 		if !a.Begin() {
 			continue
 		}
 		if j.Family == "valid" {
 			a.Count("documents", 1)
+			if len(doc) > 1000 {
+				a.Count("big documents (thousands of elements / keys, long strings, 30-60 levels)", 1)
+				a.SetMax("document bytes", int64(len(doc)))
+			}
 			want, jerr := jsonReference([]byte(doc))
 			if jerr != nil {
 				a.Note("generator produced a document encoding/json rejects: %q (%v)", doc, jerr)
@@ -242,7 +326,7 @@ func c16exec(j run.Job, a *run.Acc) {
 				continue
 			}
 			got, perr, pan := jsonParsley(p, []byte(doc), c16before(doc))
-			d := map[string]any{"document": doc}
+			d := map[string]any{"document": trunc(doc, 3000), "document_bytes": len(doc)}
 			switch {
 			case strings.HasPrefix(pan, "second evaluation") || strings.HasPrefix(pan, "the File's bytes"):
 				d["observed"] = pan
@@ -371,7 +455,7 @@ func init() {
 		},
 		Exec: c16exec,
 		Finish: func(tier string, a *run.Acc, cov map[string]any) string {
-			cov["rule"] = "case = a generated document of the supported subset: objects (duplicate and empty keys), arrays, strings with \\\" \\\\ \\b \\f \\n \\r \\t \\uXXXX (non-surrogate) and raw UTF-8, " +
+			cov["rule"] = "case = a generated document of the supported subset (one valid document in 60 is BIG: 255-5000 array elements, 255-2000 object keys with repeats, strings of up to 20000 bytes, 30-60 nesting levels, tables of up to 120x55 numbers): objects (duplicate and empty keys), arrays, strings with \\\" \\\\ \\b \\f \\n \\r \\t \\uXXXX (non-surrogate) and raw UTF-8, " +
 				"int64 integers without leading zeros, decimals with fraction and optional exponent within float64 range, true/false/null, whitespace only where the grammar's modes permit it, nesting <= 6. " +
 				"Oracle: encoding/json Decoder with UseNumber, numbers normalised to int64/float64, reflect.DeepEqual with Evaluate(Sentence(Trim(json.NewParser()))). " +
 				"'corrupt': truncation at EVERY byte, every dropped ','/':', dangling / leading / doubled separators at every bracket, appended garbage, doubled documents; when encoding/json rejects the result parsley must return an error (value or panic = violation). " +
